@@ -15,6 +15,7 @@ import (
 	"path/filepath"
 	"sort"
 	"strings"
+	"sync"
 	"time"
 
 	"github.com/folbricht/desync"
@@ -135,6 +136,43 @@ func run(c *harness.Ctx, i int) {
 			c.Violation("tar-failed", "Tar of a generated tree failed: %v", err)
 			return
 		}
+		if i%10 == 4 && buf.Len() > 0 {
+			// several archives encoded at the same time in one process (a server packing uploads, a library user): each
+			// comes out as it does alone
+			other := filepath.Join(dir, "other-tree")
+			os.MkdirAll(filepath.Join(other, "sub"), 0755)
+			for k := 0; k < 30; k++ {
+				os.WriteFile(filepath.Join(other, "sub", fmt.Sprintf("f%02d", k)), []byte(strings.Repeat("x", k*7)), 0644)
+			}
+			var alone bytes.Buffer
+			dsu.Must(desync.Tar(context.Background(), &alone, desync.NewLocalFS(other, desync.LocalFSOptions{})))
+			var wg sync.WaitGroup
+			outs := make([]bytes.Buffer, 6)
+			errs := make([]error, 6)
+			for g := range outs {
+				wg.Add(1)
+				go func(g int) {
+					defer wg.Done()
+					src := root
+					if g%2 == 1 {
+						src = other
+					}
+					errs[g] = desync.Tar(context.Background(), &outs[g], desync.NewLocalFS(src, desync.LocalFSOptions{}))
+				}(g)
+			}
+			wg.Wait()
+			for g := range outs {
+				want := buf.Bytes()
+				if g%2 == 1 {
+					want = alone.Bytes()
+				}
+				if errs[g] != nil || !bytes.Equal(outs[g].Bytes(), want) {
+					c.Violation("malformed-archive:concurrent", "six archives encoded at the same time: number %d (err %v, %d bytes) differs from the archive the same tree gives when it is encoded alone (%d bytes)", g, errs[g], outs[g].Len(), len(want))
+					return
+				}
+			}
+			c.Count("archives_encoded_concurrently", int64(len(outs)))
+		}
 		if i%5 == 2 && buf.Len() > 0 {
 			// a destination that fails after k bytes (disk full, closed pipe), once or for good: Tar must not report success
 			k := rng.Intn(buf.Len())
@@ -217,7 +255,55 @@ func run(c *harness.Ctx, i int) {
 			}
 			want = append(want, e)
 		}
+		orphan := rootStyle != "none-no-add" && rng.Intn(4) == 0
+		a, b := "bb", "cc"
+		if orphan {
+			// a member whose directory has no member of its own, behind the members of a sibling directory (tar
+			// --no-recursion -T list, archives of selected paths): it cannot be placed - refusing is fine, putting it
+			// somewhere else is not
+			mt := time.Unix(1500000000, 0)
+			sib := []string{"bb", "cc", "b", "ccc"}
+			a, b = sib[rng.Intn(2)], sib[rng.Intn(4)]
+			if a == b {
+				b = "cc"
+				a = "bb"
+			}
+			tw.WriteHeader(&tar.Header{Typeflag: tar.TypeDir, Name: pfx + "zz9/", Mode: 0755, ModTime: mt, Format: tar.FormatPAX})
+			tw.WriteHeader(&tar.Header{Typeflag: tar.TypeDir, Name: pfx + "zz9/" + a + "/", Mode: 0755, ModTime: mt, Format: tar.FormatPAX})
+			tw.WriteHeader(&tar.Header{Typeflag: tar.TypeReg, Name: pfx + "zz9/" + a + "/x", Mode: 0644, Size: 1, ModTime: mt, Format: tar.FormatPAX})
+			tw.Write([]byte("x"))
+			tw.WriteHeader(&tar.Header{Typeflag: tar.TypeReg, Name: pfx + "zz9/" + b + "/y", Mode: 0644, Size: 1, ModTime: mt, Format: tar.FormatPAX})
+			tw.Write([]byte("y"))
+		}
 		tw.Close()
+		if orphan {
+			var ob bytes.Buffer
+			oerr := desync.Tar(context.Background(), &ob, desync.NewTarReader(bytes.NewReader(tb.Bytes()), desync.TarReaderOptions{AddRoot: rootStyle != "own"}))
+			if oerr == nil {
+				ogot, verr := oracle.ValidateCatar(ob.Bytes(), false)
+				if verr != nil {
+					c.Violation("malformed-archive:tar-stream-orphan", "tar stream with a member whose directory has no member: Tar reported success and the archive is malformed: %v", verr)
+					return
+				}
+				var names []string
+				found := false
+				for _, g := range ogot {
+					if strings.HasPrefix(g.Path, "zz9") {
+						names = append(names, g.Path)
+					}
+					if strings.HasSuffix(g.Path, "zz9/"+b+"/y") || g.Path == "zz9/"+b+"/y" {
+						found = true
+					}
+				}
+				if !found {
+					c.Violation("entries-misplaced:tar-stream-orphan", "tar stream with the members zz9/, zz9/%s/, zz9/%s/x, zz9/%s/y (no member for zz9/%s/): Tar reported success and the archive holds %v", a, a, b, b, names)
+					return
+				}
+			}
+			c.Count("tar_streams_with_an_orphan_member", 1)
+			c.NonTrivial("tar-stream|orphan|err%v", oerr != nil)
+			return
+		}
 		// only entries whose parents made it into the stream
 		if rootStyle == "none-no-add" {
 			// members without a root of any kind and none added (`tar cf - file1 file2 dir`): the first member becomes
